@@ -24,6 +24,9 @@ CONFIGS = {
     "race":   dict(callers="{1}", calls=5, inv=2, exits=0, timers=1, race="TRUE", misuse="FALSE"),
     "faults": dict(callers="{1}", calls=6, inv=2, exits=1, timers=1, race="FALSE", misuse="FALSE"),
     "deep":   dict(callers="{1}", calls=8, inv=2, exits=1, timers=1, race="TRUE", misuse="FALSE"),
+    # simulation only (lib/mcsim.py): bounds that exhaustive search could not cover
+    "sim":    dict(callers="{1}", calls=16, inv=3, exits=1, timers=1, race="FALSE", misuse="TRUE"),
+    "simok":  dict(callers="{1}", calls=14, inv=3, exits=1, timers=1, race="FALSE", misuse="FALSE"),
 }
 QUICK = ["base", "misuse", "race"]
 THOROUGH = ["base", "misuse", "race", "faults"]
